@@ -103,6 +103,11 @@ structure St (ρ : Type) where
   outside : Bool := false
   /-- document-wide count of passes over pending tags that completed none of them -/
   idlePasses : Nat := 0
+  /-- `generation`: counts the changes to what the evaluation of an element can depend on (an element
+      registered or registered again in a different form, a variable given a different value, the
+      configuration set, the first previous-element); the retry loop attempts a failed tag again only
+      if this has moved on since the tag failed -/
+  gen : Nat := 0
 
 variable {ρ : Type}
 
@@ -126,8 +131,10 @@ def setVarIn (vars : List (Str × Str)) (k v : Str) : List (Str × Str) :=
 /-- `set_var`: into the innermost scope (created if the stack is empty) -/
 def St.setVar (st : St ρ) (k v : Str) : St ρ :=
   match st.scopes with
-  | [] => { st with scopes := [{ vars := [(k, v)] }] }
-  | s :: rest => { st with scopes := { s with vars := setVarIn s.vars k v } :: rest }
+  | [] => { st with scopes := [{ vars := [(k, v)] }], gen := st.gen + 1 }
+  | s :: rest =>
+    { st with scopes := { s with vars := setVarIn s.vars k v } :: rest,
+              gen := if Attrs.lookupTable s.vars k == some v then st.gen else st.gen + 1 }
 
 /-- `push_element`: the element's (unevaluated) attributes become a new innermost scope -/
 def St.pushElement (st : St ρ) (e : Elem) : St ρ :=
@@ -170,8 +177,10 @@ def updateElement (ev : Evalr ρ) (st : St ρ) (e : Elem) : St ρ :=
       | .ok (v, _) => v
       | .error _ => i
     let known := (Attrs.lookupTable st.originals i).isSome
+    let same := decide (Attrs.lookupTable st.geo.elems i = some e)
     { st with geo := { st.geo with elems := (i, e) :: st.geo.elems.filter (fun kv => kv.1 != i) },
-              originals := if known then st.originals else (i, e, none) :: st.originals }
+              originals := if known then st.originals else (i, e, none) :: st.originals,
+              gen := st.gen + (if same then 0 else 1) + (if known then 0 else 1) }
 
 /-- `register_original`: the as-written form becomes the reuse template; the element is NOT made
     available to geometry references (those only ever see resolved elements) -/
@@ -183,9 +192,13 @@ def registerOriginal (ev : Evalr ρ) (st : St ρ) (e : Elem) (kids : Option Node
       | .ok (v, _) => v
       | .error _ => i
     let known := (Attrs.lookupTable st.originals i).isSome
-    { st with originals := if known then st.originals else (i, e, kids) :: st.originals }
+    { st with originals := if known then st.originals else (i, e, kids) :: st.originals,
+              gen := if known then st.gen else st.gen + 1 }
 
-def setPrev (st : St ρ) (e : Elem) : St ρ := { st with geo := { st.geo with prev := some e } }
+/-- `set_prev_element` (which element is the previous one is not something a failed element waits
+    for; that there is one, is: only the first assignment counts as a change) -/
+def setPrev (st : St ρ) (e : Elem) : St ρ :=
+  { st with geo := { st.geo with prev := some e }, gen := if st.geo.prev.isSome then st.gen else st.gen + 1 }
 
 -- flatten a subtree back to raw events (pass-through of real SVG and of text-only containers)
 mutual
@@ -253,6 +266,8 @@ def applyConfig (cfg : Cfg) (e : Elem) : Except CErr Cfg :=
 structure Tag where
   idx : Nat
   node : Node
+  /-- `generation` right after this tag's latest failed attempt -/
+  failGen : Option Nat := none
 
 def tagElem : Node → Option Elem
   | .elem e _ _ => some e
@@ -564,7 +579,7 @@ def dispatch (ev : Evalr ρ) : Nat → St ρ → Elem → Option Nodes → St ρ
     if n == cs!"loop" then genLoop ev fuel st e kids
     else if n == cs!"config" then
       match applyConfig st.cfg e with
-      | .ok c => ({ st with cfg := c }, .ok ([], none))
+      | .ok c => ({ st with cfg := c, gen := st.gen + 1 }, .ok ([], none))
       | .error er => (st, .error er)
     else if n == cs!"reuse" then genReuse ev fuel st e
     else if n == cs!"specs" then genSpecs ev fuel st kids
@@ -727,7 +742,7 @@ def onePass (ev : Evalr ρ) : Nat → St ρ → List Tag → List (Nat × List E
         onePass ev fuel r.1 ts (if evs.isEmpty then outs else outs ++ [(t.idx, evs)]) (unionOpt bb b) remain
       | .error er =>
         if er.isLimit || er == .fuel then (r.1, .error er)
-        else onePass ev fuel r.1 ts outs bb (t :: remain)
+        else onePass ev fuel r.1 ts outs bb ({ t with failGen := some r.1.gen } :: remain)
 
 /-- the retry loop of `process_tags` -/
 def retry (ev : Evalr ρ) : Nat → St ρ → List Tag → List (Nat × List Ev) → Option BoundingBox →
@@ -736,7 +751,10 @@ def retry (ev : Evalr ρ) : Nat → St ρ → List Tag → List (Nat × List Ev)
   | _ + 1, st, [], outs, bb => (st, .ok (outs, bb))
   | fuel + 1, st, t :: ts, outs, bb =>
     seq (onePass ev fuel st (t :: ts) outs bb []) fun st' r =>
-      if r.2.2.length == (t :: ts).length then
+      -- nothing that a remaining tag could refer to has changed since the first of them failed (what
+      -- completed earlier in the pass they have all seen): another pass would repeat the same work
+      if (r.2.2.head?.bind (·.failGen)) == some st'.gen then (st', .error (.multi (r.2.2.map (·.idx))))
+      else if r.2.2.length == (t :: ts).length then
         -- no tag completed: elements newly resolved inside a failing container still count as
         -- progress, a bounded number of times (`allow_idle_pass`)
         if st'.geo.elems.length == st.geo.elems.length then (st', .error (.multi (r.2.2.map (·.idx))))
@@ -749,7 +767,7 @@ def retry (ev : Evalr ρ) : Nat → St ρ → List Tag → List (Nat × List Ev)
 def processNodes (ev : Evalr ρ) : Nat → St ρ → Nodes → St ρ × Res
   | 0, st, _ => (st, .error .fuel)
   | fuel + 1, st, ks =>
-    seq (retry ev fuel st (ks.toList.zipIdx.map fun (n, i) => (⟨i, n⟩ : Tag)) [] none) fun st r =>
+    seq (retry ev fuel st (ks.toList.zipIdx.map fun (n, i) => ({ idx := i, node := n } : Tag)) [] none) fun st r =>
       (st, .ok ((sortOuts r.1).flatMap (·.2), r.2))
 
 end
